@@ -356,6 +356,13 @@ class HierDictDocument(DictDocument):
                 if subinst is None:
                     subinst = []
 
+                if v is None:
+                    v = ()
+                elif not isinstance(v, (list, tuple)):
+                    # a scalar (or a string, or a map) where a sequence of
+                    # values is declared
+                    raise ValidationError([k, v])
+
                 for a in v:
                     subinst.append(
                             self._from_dict_value(ctx, k, member, a, validator))
